@@ -225,6 +225,28 @@ class Runner(object):
         self.lock = threading.Lock()
         self.durations = {}
         self.unreached = 0        # files of a batch that a failed invocation never started
+        # every run has a directory of its own, but the compiler must see the SAME absolute path whenever the cwd axis
+        # has the same value (otherwise a recorded path would be blamed on whatever axis the two runs differ in): each
+        # invocation gets a private mount namespace in which its directory is bound onto the path of its cwd value
+        self.mnt = {k: os.path.join(workdir, "cwd", v) for k, v in CWD.items()}
+        for m in self.mnt.values():
+            os.makedirs(m)
+        self.unshare, self.sh, self.mount = (shutil.which(x) for x in ("unshare", "sh", "mount"))
+        self.ns = self._probe_ns()
+        self.hangs = 0
+        self.hang_list = []
+        self.skipped_after_hangs = 0
+
+    NS_SCRIPT = '%s --bind "$1" "$2" && cd "$2" && shift 2 && exec "$@"'
+
+    def _probe_ns(self):
+        if not (self.unshare and self.sh and self.mount):
+            return False
+        d = os.path.join(self.wd, "nsprobe")
+        os.makedirs(d, exist_ok=True)
+        r = subprocess.run([self.unshare, "-m", self.sh, "-c", self.NS_SCRIPT % self.mount, "sh", d, self.mnt["B"], "/bin/pwd"],
+                           stdout=subprocess.PIPE, stderr=subprocess.PIPE, env={})
+        return r.returncode == 0 and r.stdout.decode().strip() == self.mnt["B"]
 
     def check_aslr_switch(self):
         """setarch -R must really switch randomisation off in this sandbox (and it must be on otherwise)."""
@@ -255,9 +277,29 @@ class Runner(object):
             env[k] = v
         pre = [self.setarch if w == "setarch" else w for w in conf["wrapper"]]
         cmd = pre + [self.aldor] + vlib.ALDOR_BASE_ARGS + list(conf["args"]) + group.opts + [f for _, f in KINDS] + list(files)
-        rc, out, err, to = vlib.run(cmd, cwd=d, timeout=1500, env=env)
+        seen_dir = d
+        if self.ns:
+            seen_dir = self.mnt[c["cwd"]]
+            cmd = [self.unshare, "-m", self.sh, "-c", self.NS_SCRIPT % self.mount, "sh", d, seen_dir] + cmd
+        est = cost(group, conf) * len(files)
+        limit = min(900, 60 + 60 * est)
+        with self.lock:
+            skip = self.hangs >= 3 and est > 1
+        if skip:
+            # several invocations already failed to terminate: the verdict is settled, do not wait for the expensive rest
+            shutil.rmtree(top, ignore_errors=True)
+            self.skipped_after_hangs += 1
+            return None
+        rc, out, err, to = vlib.run(cmd, cwd=d, timeout=limit, env=env)
         if to:
-            raise vlib.MachineryError("compiler timed out: %s (cwd %s, cfg %s)" % (" ".join(cmd), d, conf["id"]))
+            # no exit within the limit (the estimate times 60 plus a minute): observed as such -- the Hang event of DESIGN.md
+            # appendix D; whatever was written before is hashed as it is
+            with self.lock:
+                self.hangs += 1
+                self.hang_list.append({"group": group.gid, "cfg": conf["id"], "files": list(files), "limit_s": round(limit)})
+            rc = 999
+            out = (out or b"") + b"\0<hang: no exit within the time limit>"
+            err = err or b""
         tail = b"\0stderr:" + err + (b"\0signal %d" % -rc if rc < 0 else b"")
         msgs = {}
         if len(files) == 1:
@@ -281,7 +323,7 @@ class Runner(object):
                     msgs.setdefault(n, None)
                 reached = list(files[:last + 1])
         obs = {}
-        dtag = d.encode()
+        dtag = seen_dir.encode()
         for n in reached:
             for kind in KIND_NAMES:
                 if kind == "msg":
@@ -307,7 +349,7 @@ class Runner(object):
         with self.lock:
             self.nruns += 1
             self.unreached += len(files) - len(reached)
-            ent = self.commands.setdefault((group.gid, conf["id"]), {"cwd": d, "env": c["env"], "envadd": conf["envadd"], "commands": []})
+            ent = self.commands.setdefault((group.gid, conf["id"]), {"cwd": seen_dir, "env": c["env"], "envadd": conf["envadd"], "commands": []})
             ent["commands"].append(" ".join(cmd))
             self.durations[(group.gid, conf["id"], files[0])] = time.time() - t_start
         return {"rc": rc, "obs": obs, "reached": reached, "files": list(files)}
@@ -411,7 +453,9 @@ def run_all(runner, pairs, nproc):
             results[futs[f]] = f.result()
     per_pair = {}
     for (pi, files), r in zip(jobs, results):
-        per_pair.setdefault(pi, []).append(r)
+        per_pair.setdefault(pi, [])
+        if r is not None:
+            per_pair[pi].append(r)
     by_input = {}
 
     def emit(c, key, dg):
@@ -419,7 +463,7 @@ def run_all(runner, pairs, nproc):
     for pi, (g, c) in enumerate(pairs):
         rs = per_pair[pi]
         batch = c["cfg"]["inv"] == "batch"
-        complete = True
+        complete = len(rs) == (1 if batch else len(g.inputs))
         rcsum = 0
         for r in rs:
             rcsum += r["rc"] if r["rc"] >= 0 else 1000 - r["rc"]
@@ -432,7 +476,7 @@ def run_all(runner, pairs, nproc):
         # the exit status of the group = the sum of the error counts (comparable only if every file was started)
         if complete:
             emit(c, "%s|exit" % g.gid, [rcsum, 0, 0, 0])
-        if batch:
+        if batch and rs:
             emit(c, "%s|exit|in-batch:%s" % (g.gid, g.gid), [rcsum, 0, 0, 0])
     out = {}
     for k, lst in by_input.items():
